@@ -5,6 +5,7 @@ CONSTANTS
   Permute = TRUE
   CheckOnTableHit = TRUE
   RepairFalseResult = FALSE
+  LinkStopsAtNegation = FALSE
 VIEW view
 INVARIANT NoDanglingMessages
 INVARIANT NoError
